@@ -130,7 +130,15 @@ def _label_of(line_text: str) -> Optional[str]:
 def _name(d: dict, asm: Assembled) -> Failure:
     msg = d['message']
     lines = asm.text.split('\n')
-    spans = d.get('spans', [])
+    all_spans = d.get('spans', [])
+    foreign = [s for s in all_spans if not (0 < s.get('line_start', 0) <= len(lines) and s.get('text') and
+                                           s['text'][0]['text'] == lines[s['line_start'] - 1])]
+    spans = [s for s in all_spans if s not in foreign]
+    vstd_note = ''
+    for s in foreign:
+        if s.get('label') and 'failed' in s['label'] and s.get('text'):
+            vstd_note = ' [std/vstd precondition: %s]' % ' '.join(s['text'][0]['text'].split())[:80]
+    msg_full = msg + vstd_note
     primary = [s for s in spans if s.get('is_primary')] or spans
     labelled = [s for s in spans if s.get('label') and 'failed' in s['label']]
     # the clause that failed (if Verus points at one), else the primary span
@@ -183,7 +191,7 @@ def _name(d: dict, asm: Assembled) -> Failure:
     # no clause span: safety obligations located in source (overflow, bounds via precondition, termination)
     if o_loc.kind in ('src', 'rule'):
         fn = o_loc.fn.split(' :: ')[-1].replace('fn ', '')
-        return Failure('%s::%s@%s:%d' % (fn, _short(msg), o_loc.where, o_loc.line), msg, 'safety', fn,
+        return Failure('%s::%s@%s:%d' % (fn, _short(msg), o_loc.where, o_loc.line), msg_full, 'safety', fn,
                        '%s:%d' % (o_loc.where, o_loc.line), d.get('rendered', ''), all_lines)
     if o_loc.kind == 'splice':
         fn = o_loc.fn.split(' :: ')[-1].replace('fn ', '')
